@@ -156,6 +156,16 @@ CLAIMED = {
             "queries for all inputs.",
             "value provenance over go/ssa, regular-language (NFA->DFA) reasoning on the grammar's lexer rule, constant-pattern analysis, table agreement",
             "DESIGN.md §4 C14"),
+    "C12": ("Structural necessary conditions of faithful literal text: the hand-written scanner's string-literal reader is run "
+            "abstractly (finite-domain interpretation of its SSA) on the strconv.Quote image of all 121 abstract strings over "
+            "{quote, backslash, other} up to length 4 followed by more input and must stop exactly at the closing quote; the "
+            "lexer's TEXT rule, read from the grammar and determinised over the same alphabet, is checked for termination "
+            "ambiguity and acceptance of every image; scanBody's reaction to '@' + {'(', '@', name, end, other} x unescape is "
+            "evaluated per case against the documented behaviour; scanIdentifier returns the scanned text unmodified and IDENTIFIER "
+            "only behind the lower-cased allowed-top-level test; TextLiteral.String is strconv.Quote of the full native value and "
+            "the reader strconv.Unquote. Does not decide the whole-string round trip for all UTF-8.",
+            "finite-domain abstract interpretation of the scanner (path typestate engine over go/ssa), NFA->DFA reasoning on the grammar rule, provenance",
+            "DESIGN.md §4 C12"),
 }
 
 NOT_APPLICABLE = {}
